@@ -119,6 +119,8 @@ def run(F, R):
     _roles = _c5.classify_api(_c5.queue_api(F, M))
     z8_pcm_complete(F, R, M, _roles, rule='P12')
     z7_release_after_pop(F, RuleProxy(R, {'Z7': 'P12'}), M, _roles)
+    p14_pinned_buffers(F, R, M, _roles)
+    p15_owned_buffers_parked(F, R, M, _roles)
     # P13: a buffer is unshared in the direction it was shared in: the block driver's completion calls present the same
     # readable / writable lists to pop_used as the submission gave to add (C14.K3 shapes, K4 submission~completion siblings)
     from . import C14 as _c14
@@ -127,6 +129,116 @@ def run(F, R):
         _c14.k4_siblings(F, RuleProxy(R, {'K4': 'P13'}, only=lambda inst: '~' in inst), _ops)
     from .C16 import s4_custody
     s4_custody(F, R, M, _c5.classify_api(_c5.queue_api(F, M)), rule='P7', only=('receive', 'recycle_rx_buffer'))
+
+
+def p14_pinned_buffers(F, R, M, roles):
+    """A driver-owned buffer that stays posted after the posting method returns must not move with the driver value: the
+    address given to share is the address later given to unshare only if the buffer lives behind a pointer (Box, Vec, DMA
+    region, leaked allocation).  A field that is an inline array of plain data and is handed to `add` (not to the blocking
+    add-wait-pop helper) is shared at one address and - once the driver value has been moved, e.g. returned from `new` -
+    unshared at another."""
+    n = 0
+    for name, a in F.adts.items():
+        if a['kind'] != 'struct' or name in (M.queue_adt, M.dma_adt):
+            continue
+        fields = {f['name']: f['ty'] for f in a['variants'][0]['fields']}
+        if not any(M.queue_adt in f['mentions'] or (M.owning_adt and M.owning_adt in f['mentions']) for f in a['variants'][0]['fields']):
+            continue
+        posted = {}
+        for b in F.bodies.values():
+            if b.get('impl_adt') != name or not F.handwritten(b) or b['kind'] != 'AssocFn':
+                continue
+            if not any(bl['term']['k'] == 'call' and roles.get(bl['term'].get('fn')) == 'add' for bl in b['blocks']):
+                continue
+            sg = supergraph(F, b['id'], tag='flat', max_depth=0)
+            S = sg.sym
+            for c in sg.calls(lambda d: roles.get(d.get('fn')) == 'add'):
+                for a_ in c.d['args'][1:3]:
+                    for x in deep_subterms(S, S.operand(c.id, a_)):
+                        if x[0] == 'loc' and x[1][0] == 'deref' and strip_ptr(x[1][1]) == ('param', 1) and x[2] and x[2][0][0] == 'f' and len(x[2][0]) > 2 and x[2][0][2] == name:
+                            posted.setdefault(x[2][0][1], site(sg, c))
+        if not posted:
+            continue
+        n += 1
+        for f, where in sorted(posted.items()):
+            ty = fields.get(f, '')
+            inline = ty.startswith('[') and not any(k in ty for k in ('NonNull', 'Box<', '*mut', '*const', '&'))
+            R.check(not inline, 'P14', '%s.%s:posted-buffer-is-pinned' % (name, f), where, 'posted field `%s: %s` lives behind a pointer' % (f, ty[:50]),
+                    'field `%s: %s` of %s is handed to the queue in place: the buffer is part of the driver value, so moving the driver (returning it from the '
+                    'constructor, boxing it) while the request is outstanding makes unshare see a different address range than share did' % (f, ty[:50], name.rsplit('::', 1)[1]))
+    R.count('posting_drivers', n)
+
+
+def p15_owned_buffers_parked(F, R, M, roles):
+    """A buffer the method itself allocated (a Vec / Box local) and posted with the non-blocking `add` must outlive the method:
+    on every successful path it is moved into the driver's state (inserted / pushed / assigned to a field of self) - otherwise it
+    is freed at the end of the method while the device still owns it and can never be unshared with the range it was shared with."""
+    n = 0
+    for b in F.bodies.values():
+        if not F.handwritten(b) or b['kind'] != 'AssocFn' or b.get('impl_adt') in (M.queue_adt, M.owning_adt) or not b.get('impl_adt'):
+            continue
+        if not any(bl['term']['k'] == 'call' and roles.get(bl['term'].get('fn')) == 'add' for bl in b['blocks']):
+            continue
+        sg = supergraph(F, b['id'], tag='flat', max_depth=0)
+        S = sg.sym
+        fn = sg.entry_fn
+        oks = [x.id for x in sg.nodes if x.kind == 'assign' and not x.d['place']['p'] and x.d['place']['l'] == 0 and x.d['rv']['rv'] == 'agg' and x.d['rv'].get('variant') == 'Ok']
+        for a in sg.calls(lambda d: roles.get(d.get('fn')) == 'add'):
+            owned = set()
+            for arg in a.d['args'][1:3]:
+                for x in deep_subterms(S, S.operand(a.id, arg), depth=8):
+                    if x[0] == 'loc' and x[1][0] == 'local' and x[1][1] == 0 and x[1][2] > fn['arg_count']:
+                        ty = fn['locals'][x[1][2]]['ty']
+                        if (ty.startswith('alloc::vec::Vec<') or ty.startswith('alloc::boxed::Box<')) and fn['locals'][x[1][2]].get('name'):
+                            owned.add(x[1][2])
+            # ... and allocations whose value Sym has propagated into the operand (`let rsp = T::new_box_zeroed()?; add(.., rsp.as_mut_bytes())`)
+            op_calls = set()
+            for arg in a.d['args'][1:3]:
+                op_calls |= set(x[1] for x in deep_subterms(S, S.operand(a.id, arg), depth=8) if x[0] == 'call' and isinstance(x[1], int))
+            for l_, ld in enumerate(fn['locals']):
+                if l_ <= fn['arg_count'] or not ld.get('name') or not (ld['ty'].startswith('alloc::vec::Vec<') or ld['ty'].startswith('alloc::boxed::Box<')):
+                    continue
+                v_ = S.operand(a.id, {'copy': {'l': l_, 'p': []}})
+                if any(x[0] == 'call' and x[1] in op_calls and ('alloc' in x[2] or 'new_box' in x[2] or 'Box' in x[2] or 'vec' in x[2]) for x in subterms(v_)):
+                    owned.add(l_)
+            for l in sorted(owned):
+                n += 1
+                parked = []
+                # temporaries the value is moved through (`_t = move buf; Struct { field: move _t }`)
+                alias = {l}
+                for _ in range(3):
+                    for m in sg.nodes:
+                        if m.kind == 'assign' and m.d['rv']['rv'] == 'use' and not m.d['place']['p']:
+                            mv = m.d['rv']['op'].get('move')
+                            if mv and mv['l'] in alias and not mv['p']:
+                                alias.add(m.d['place']['l'])
+                for m in sg.nodes:
+                    ops = []
+                    if m.kind == 'call' and m.inl is None:
+                        ops = m.d['args']
+                    elif m.kind == 'assign' and m.d['rv']['rv'] in ('use', 'agg'):
+                        ops = [m.d['rv']['op']] if m.d['rv']['rv'] == 'use' else m.d['rv']['ops']
+                    if not any(o.get('move') and o['move']['l'] in alias and not o['move']['p'] for o in ops if isinstance(o, dict)):
+                        continue
+                    if m.kind == 'assign' and m.d['rv']['rv'] == 'use' and not m.d['place']['p']:
+                        continue      # the move into a temporary itself
+                    # moved into something rooted at self?
+                    tgt = None
+                    if m.kind == 'call' and m.d['args']:
+                        tgt = S.operand(m.id, m.d['args'][0])
+                    elif m.kind == 'assign':
+                        tgt = ('ref', S.place_loc(m.id, m.d['place']))
+                        if m.d['rv']['rv'] == 'agg' and m.d['rv'].get('adt') == b.get('impl_adt'):
+                            parked.append(m.id)      # a constructor moves it into the driver value it returns
+                            continue
+                    if tgt is not None and any(x[0] == 'loc' and x[1][0] == 'deref' and strip_ptr(x[1][1]) == ('param', 1) for x in deep_subterms(S, tgt)):
+                        parked.append(m.id)
+                ok = bool(parked) and all(sg.always_before(parked, o) for o in oks if a.id in sg.reach_bwd([o]))
+                R.check(ok, 'P15', '%s:%s:owned-buffer-parked' % (b['id'], fn['locals'][l].get('name')), site(sg, a),
+                        'the posted allocation `%s` is moved into the driver state on every successful path' % fn['locals'][l].get('name'),
+                        '`%s` (%s) is posted to the queue with the non-blocking add but is not kept in the driver state on every successful path: it is freed when %s '
+                        'returns, while the device still uses it' % (fn['locals'][l].get('name'), fn['locals'][l]['ty'][:40], b['name']))
+    R.count('owned_posted_buffers', n)
 
 
 def dma_field_roles(F, M):
